@@ -1817,3 +1817,42 @@ Section Tie.
     rewrite (Kf (S (List.length ts))); [reflexivity|]. pose proof (cw_le1 id). cbn [List.length]. lia.
   Qed.
 End Tie.
+
+(** * K. through emission and parsing: the reader runs on [parse_module] of the emitted tokens *)
+Theorem conformsb_of_ir (r : registry) (s : settings) (teq : N -> N -> result bool) (m : items) (toks : tokens) :
+  generate r s teq = Ok m -> skeleton_consistent r s -> reader_scopeb r s m = true ->
+  items_plain s m = true -> emit_module s m = Ok toks ->
+  forall (id : N) (ts : tokens),
+    conforms r s m id ts [] -> ~ In empty_str_lit ts ->
+    conformsb r (s_root s) (parse_module toks) (model_paths r s) id ts = true.
+Proof.
+  intros Hg Hsk Hsc Hp He id ts Hc Hn. rewrite (emit_parses s m toks He Hp).
+  exact (conformsb_of_conforms r s teq m Hg Hsk Hsc id ts Hc Hn).
+Qed.
+
+(** every Ok example of the model is accepted by the token-level reader on the parse of the model's
+    own emission *)
+Theorem conforms_tokens (r : registry) (s : settings) (teq : N -> N -> result bool) (m : items) (toks : tokens) :
+  generate r s teq = Ok m -> skeleton_consistent r s -> reader_scopeb r s m = true ->
+  items_plain s m = true -> emit_module s m = Ok toks ->
+  forall (id : N) (ws : words) (ts : tokens),
+    example_rust r s id ws = XOk ts -> ~ In empty_str_lit ts ->
+    conformsb r (s_root s) (parse_module toks) (model_paths r s) id ts = true.
+Proof.
+  intros Hg Hsk Hsc Hp He id ws ts Hx Hn.
+  apply (conformsb_of_ir r s teq m toks Hg Hsk Hsc Hp He id ts); [|exact Hn].
+  exact (example_conforms r s teq m Hg Hsk id ws ts Hx).
+Qed.
+
+(** the explicit-fuel form, for every remainder [rest] that does not start a group *)
+Theorem conf_of_conforms (r : registry) (s : settings) (teq : N -> N -> result bool) (m : items) :
+  generate r s teq = Ok m -> skeleton_consistent r s -> reader_scopeb r s m = true ->
+  forall (id : N) (ts rest : tokens),
+    conforms r s m id ts rest -> Unparse.hd_is "(" rest = false -> ~ In empty_str_lit ts ->
+    forall fuel, (List.length ts + 1 <= fuel + List.length rest)%nat ->
+    conf r (s_root s) (Some (pmod_of_items s m)) (model_paths r s) fuel id ts = Some rest.
+Proof.
+  intros Hg Hsk Hsc id ts rest Hc Hh Hn fuel Hf.
+  destruct (conforms_P r s teq m Hg Hsk Hsc id ts rest Hc) as [_ K].
+  destruct (K Hh Hn) as (_ & _ & Kf). apply Kf. pose proof (cw_le1 r id). lia.
+Qed.
